@@ -136,6 +136,7 @@ def run_mc_walk(pid, scn, gh_exe, timeout=3600, heap="6g"):
                         try:
                             gh.stdin.write(line)
                         except BrokenPipeError:
+                            tlc.kill()      # the harness is gone: nobody reads the transitions any more
                             break
                     else:
                         logf.write(line)
